@@ -12,8 +12,8 @@ VT_PY = "/opt/veriftools/pyvenv/bin/python3"
 # query id prefix -> properties it speaks for
 OWNERS = {"K1.try_parse_format": ["C13", "C14"], "K1.extension_format": ["C14"], "K1.input_path_from": ["C14"],
           "K1.unsafe_for_terminal": ["C13"], "K2": ["C13"], "K3": ["C13", "C16", "C04"], "K4": ["C14", "C03"], "K4.open": ["C14", "C13"],
-          "K5": ["C15", "C16"], "K6": ["C16"], "K6.thread": ["C18", "C04"], "K6.translator": ["C08", "C03", "C16"], "K7": ["C03", "C12", "C18", "C02"], "K8": ["C07", "C02", "C09"], "K9": ["C03", "C02", "C04", "C12", "C09"], "K10": ["C08", "C11", "C15"], "K11": ["C09", "C03"], "K12": ["C03", "C12"], "K13": ["C09", "C12", "C02", "C14"], "K14": ["C09"], "K15": ["C15", "C16", "C12"],
-          "K16": ["C04", "C17", "C02", "C03"], "K17": ["C11"], "K18": ["C12", "C11", "C09"], "K19": ["C17", "C04"], "K20": ["C11", "C12", "C04", "C01", "C03"], "K21": ["C09", "C02", "C12", "C03"]}
+          "K5": ["C15", "C16"], "K6": ["C16"], "K6.thread": ["C18", "C04"], "K6.translator": ["C08", "C03", "C16"], "K7": ["C03", "C12", "C18", "C02", "C13"], "K8": ["C07", "C02", "C09"], "K9": ["C03", "C02", "C04", "C12", "C09"], "K10": ["C08", "C11", "C15"], "K11": ["C09", "C03"], "K12": ["C03", "C12"], "K13": ["C09", "C12", "C02", "C14"], "K14": ["C09"], "K15": ["C15", "C16", "C12"],
+          "K16": ["C04", "C17", "C02", "C03"], "K17": ["C11"], "K18": ["C12", "C11", "C09"], "K19": ["C17", "C04"], "K20": ["C11", "C12", "C04", "C01", "C03", "C16"], "K21": ["C09", "C02", "C12", "C03"]}
 
 
 # which native CLI scenario groups speak for which property (used when main() deviates from the model in a way owned elsewhere)
